@@ -454,55 +454,176 @@ def _residue(sym, prefix="residue-after-cleanup:"):
     return set(sym[len(prefix):].split(",")) if sym.startswith(prefix) else None
 
 
-def classify(process, wk, at, syms, uname):
-    """root-cause key (one of the 8 adjudicated known findings of known_findings.json) of ONE failing case, or None.
-    Deliberately narrow: the API window the process died in, the call it died at and the exact symptom set must all
-    fit; everything else stays an unkeyed VIOLATION.
-      process  "victim" | "cleaner"       wk  window_kind() of the window the process died in
-      at       canonical trace line of the call at the crash point ("<call> <path> <args> <result>")
-      syms     the normalised symptoms of the case (judge()), consequences already suppressed"""
+def _done(done, call_re, path_re, args_re=None):
+    """performed (successful) calls of the dead process matching the patterns: list of canonical lines"""
+    out = []
+    for l in done:
+        f = l.split(" ")
+        if len(f) < 4 or f[-1] != "ok":
+            continue
+        if re.search(call_re, f[0]) and re.search(path_re, f[1]) and (args_re is None or re.search(args_re, f[2])):
+            out.append(l)
+    return out
+
+
+def _created(done, path_re):
+    return _done(done, r"^(open|openat|shm_open|creat)$", path_re, r"O_CREAT") + _done(done, r"^mkdir$", path_re)
+
+
+def _removed(done, path_re):
+    return _done(done, r"^(remove|unlink|unlinkat|shm_unlink|rmdir)$", path_re)
+
+
+def classify(process, wk, at, syms, uname, done_win=None, done_all=None):
+    """root-cause key (one of the seven adjudicated known findings of known_findings.json) of ONE failing case, or None.
+
+    A key is given ONLY when the recorded preconditions of that finding verifiably hold for the dead process, decided from
+    the gated calls it had PERFORMED when it died (its own gate log), the API window it died in and the resource the calls
+    belong to -- and the observed residue / result is exactly what those performed steps predict.  The symptom alone never
+    selects a key: the same residue reached from any other crash position is an unkeyed VIOLATION.
+      process   "victim" | "cleaner"        wk   window_kind() of the window the process died in
+      at        canonical line of the call at the crash point
+      syms      normalised symptoms of the case (judge()), consequences already suppressed
+      done_win  calls the dead process performed in the window it died in (cleaner: its whole life)
+      done_all  all calls it performed
+    Preconditions (P) and predictions per key:
+      node-create-before-token-finalised  P: in this window the process created nodes/<x> (mkdir) and has not yet performed the
+            final `fchmod <x>.node_monitor_context 0400` of ProcessGuard::create.  Prediction: residue = exactly the files of <x>
+            created so far (node-dir, node-details, monitor-context/-state/-owner-lock); victim: window node-create.
+      cleanup-without-details             P: the process removed nodes/<x>/..node.details of a node whose token is complete and has
+            not yet removed <x>.node_monitor (victim: own node, window node-drop; cleaner: the dead node).  Prediction: the public
+            cleanup fails without details, the hidden entry point with the config succeeds, nothing else.
+      node-drop-after-state-removed       P: the process removed <x>.node_monitor (state file) and not yet <x>.node_monitor_context.
+            Prediction: residue = context (+ owner-lock iff not yet removed).
+      tag-created-not-finalised           P: in this window the process created a .service_tag/.port_tag file T and has not yet
+            performed `fchmod T 0400`.  Prediction: cleanup of that node fails with InternalError for ever.
+      service-create-before-unlock        P: window svc-create: services/<h>.service created, final `fchmod .. 0400` not performed.
+            Prediction: residue static-config and/or create afresh AlreadyExists.
+      service-drop-tag-first              P: window drop_s of a scenario in which the victim is the only user: the service tag was
+            removed in this window, services/<h>.service not yet.  Prediction: residue = static-config + every service segment
+            not yet unlinked; exists = true.
+      listener-create-residue-event-mgmt  P: window port-create-lis: port tag and <id>.event_mgmt created; or a drop window in which
+            the listener's <id>.event_mgmt has not been unlinked yet and the crash call is on the listener's event files.
+            Prediction: residue within {event_mgmt, event-connection}, event_mgmt iff it exists."""
     f = at.split(" ")
     call, path = f[0], f[1]
     syms = list(syms)
-    in_node_files = bool(re.match(r"^R/nodes(/|$)", path))
+    dw = list(done_win or [])
+    da = list(done_all or dw)
     cleaner = process == "cleaner"
+    if not dw and not da:
+        return None                                   # nothing verifiable about the dead process: never keyed
     res_sets = [_residue(x) for x in syms]
-    # (1) node (victim's, or the helper node send_dead_node_signal creates inside the cleaner) dies while it is created, before
-    #     the monitoring token is finalised: never listed; node directory (+ details, + token files in init permissions) stay
-    if len(syms) == 1 and res_sets[0] and "node-dir" in res_sets[0] and \
-            res_sets[0] <= {"node-dir", "node-details", "monitor-context", "monitor-state", "monitor-owner-lock"} and \
-            (wk == "node-create" or (cleaner and in_node_files)):
-        return K_NODE_CREATE
-    # (3) node drop / cleaner's token drop dies after the state file is gone: _owner_lock / _context stay, never listed
-    if len(syms) == 1 and res_sets[0] and res_sets[0] <= {"monitor-context", "monitor-owner-lock"} and \
-            (wk == "node-drop" or cleaner) and ".node_monitor" in path:
-        return K_NODE_DROP
-    # (4) service tag / port tag created but not finalised (died at the fchmod/write between open(O_CREAT) and fchmod 0400)
-    if path.endswith((".service_tag", ".port_tag")) and call in ("fchmod", "write", "open") and \
-            (wk.startswith(("svc-create-", "svc-open-", "port-create-")) or cleaner) and \
+    one_residue = res_sets[0] if len(syms) == 1 and res_sets[0] else None
+    scope = da if cleaner else dw
+
+    def node_ids(lines):
+        return {m.group(1) for l in lines for m in [re.search(r"R/nodes/(?:P_)?(#\d+)", l.split(" ")[1])] if m}
+
+    # (1) node creation before the token is finalised
+    if one_residue and (wk == "node-create" or cleaner):
+        for x in node_ids(_created(scope, r"^R/nodes/#\d+$")):
+            xr = re.escape(x)
+            if _done(scope, r"^fchmod$", r"^R/nodes/P_%s\.node_monitor_context$" % xr, r"mode=04"):
+                continue
+            pred = {"node-dir"}
+            if _created(scope, r"^R/nodes/%s/P_node\.details$" % xr):
+                pred.add("node-details")
+            for suf, kd in ((".node_monitor_context", "monitor-context"), (".node_monitor", "monitor-state"), (".node_monitor_owner_lock", "monitor-owner-lock")):
+                if _created(scope, r"^R/nodes/P_%s%s$" % (xr, re.escape(suf))):
+                    pred.add(kd)
+            if one_residue == pred:
+                return K_NODE_CREATE
+    # (3) node drop / token drop past the state file
+    if one_residue and (wk == "node-drop" or cleaner):
+        for x in node_ids(_removed(scope, r"^R/nodes/P_#\d+\.node_monitor$")):
+            xr = re.escape(x)
+            if _removed(scope, r"^R/nodes/P_%s\.node_monitor_context$" % xr):
+                continue
+            pred = {"monitor-context"}
+            if not _removed(scope, r"^R/nodes/P_%s\.node_monitor_owner_lock$" % xr):
+                pred.add("monitor-owner-lock")
+            if one_residue == pred:
+                return K_NODE_DROP
+    # (4) tag created, not finalised
+    if (wk.startswith(("svc-create-", "svc-open-", "port-create-")) or cleaner) and syms and \
             any(x in ("node-never-clean:Dead:InternalError", "node-never-clean:Dead:InternalError+ResourcesAlreadyCleanedUp") for x in syms) and \
             all(x.startswith("node-never-clean:Dead:InternalError") or x == "cleanup-without-details-uses-global-config" for x in syms):
-        return K_TAG
-    # (2) dead node without details file (node drop past the details removal, or a cleaner that died past it)
-    if syms == ["cleanup-without-details-uses-global-config"] and (wk == "node-drop" or cleaner) and in_node_files:
-        return K_NO_DETAILS
+        for l in _created(scope, r"\.(service_tag|port_tag)$"):
+            t = re.escape(l.split(" ")[1])
+            if not _done(scope, r"^fchmod$", "^" + t + "$", r"mode=0400") and not _removed(scope, "^" + t + "$"):
+                return K_TAG
+    # (2) dead node whose details file is gone while its token is complete
+    if syms == ["cleanup-without-details-uses-global-config"] and (wk == "node-drop" or cleaner):
+        for x in node_ids(_removed(scope, r"^R/nodes/#\d+/P_node\.details$")):
+            if not _removed(scope, r"^R/nodes/P_%s\.node_monitor$" % re.escape(x)):
+                return K_NO_DETAILS
     # (5) crash:shm-created-not-truncated-survivor-hangs was repaired in /repo (868edb1): a survivor hang is an unkeyed
     #     VIOLATION again; the crash points of that class run first as regression cases (regression_zero_size)
-    # (6) service creator dies with the static config created but not unlocked
-    if wk.startswith("svc-create-") and path.endswith(".service") and syms and \
+    # (6) static config created, not unlocked
+    if wk.startswith("svc-create-") and not cleaner and syms and \
             all(x == "residue-after-cleanup:static-config" or re.match(r"^probe-differs:svc n1 \w+:err:AlreadyExists$", x) for x in syms):
-        return K_STATIC
-    # (7) last user's service drop: tag removed first, configs orphaned
-    if re.match(r"^drop_s@(full_)?create_", wk) and syms and \
-            all((_residue(x) is not None and _residue(x) <= {"dynamic-config", "static-config", "blackboard_data", "blackboard_mgmt"})
-                or x == "probe-differs:exists:true" for x in syms) and any(_residue(x) for x in syms):
-        return K_SVC_DROP
-    # (8) listener dies while it is created: event_mgmt shm / socket are not found through the port tag
-    #     (same mechanism in the listener's drop: registry entry already released, event files not yet removed, tag still there)
-    if len(syms) == 1 and res_sets[0] and res_sets[0] <= {"event_mgmt", "event-connection"} and \
-            (wk.startswith("port-create-lis@") or (wk.startswith("drop_") and path.endswith((".event", ".event_mgmt")))):
-        return K_LISTENER
+        for l in _created(dw, r"^R/services/P_H\d+\.service$"):
+            t = re.escape(l.split(" ")[1])
+            if not _done(dw, r"^fchmod$", "^" + t + "$", r"mode=0400") and not _created(dw, r"\.dynamic$"):
+                return K_STATIC
+    # (7) last user's service drop removed the tag first
+    if re.match(r"^drop_s@(full_)?create_", wk) and not cleaner and syms and \
+            _removed(dw, r"\.service_tag$") and not _removed(dw, r"^R/services/P_H\d+\.service$"):
+        pred = {"static-config"}
+        for suf, kd in ((".dynamic", "dynamic-config"), (".blackboard_data", "blackboard_data"), (".blackboard_mgmt", "blackboard_mgmt")):
+            if _created(da, re.escape(suf) + "$") and not _removed(dw, re.escape(suf) + "$"):
+                pred.add(kd)
+        rs = [x for x in res_sets if x is not None]
+        if len(rs) == 1 and rs[0] == pred and all(_residue(x) is not None or x == "probe-differs:exists:true" for x in syms):
+            return K_SVC_DROP
+    # (8) listener's event segment is not reachable through the port tag
+    if one_residue and one_residue <= {"event_mgmt", "event-connection"} and not cleaner:
+        if wk.startswith("port-create-lis@") and _created(dw, r"\.port_tag$") and \
+                (("event_mgmt" in one_residue) == bool(_created(dw, r"\.event_mgmt$"))):
+            return K_LISTENER
+        if wk.startswith("drop_") and path.endswith((".event", ".event_mgmt")) and _created(da, r"\.event_mgmt$") and \
+                (("event_mgmt" in one_residue) == (not _removed(dw, r"\.event_mgmt$"))) and not _removed(dw, r"\.port_tag$"):
+            return K_LISTENER
     return None
+
+
+def classifier_selftest():
+    """the classifier must key a case only with its preconditions: same symptoms with other histories stay unkeyed"""
+    mk = "mkdir R/nodes/#2 mode=0750 ok"
+    det = "open R/nodes/#2/P_node.details flags=O_RDWR|O_CREAT|O_EXCL,mode=0600 ok"
+    ctx_ = "open R/nodes/P_#2.node_monitor_context flags=O_RDWR|O_CREAT|O_EXCL,mode=0200 ok"
+    fin = "fchmod R/nodes/P_#2.node_monitor_context mode=0400 ok"
+    tag = "open R/nodes/#2/P_H4.service_tag flags=O_RDWR|O_CREAT|O_EXCL,mode=0600 ok"
+    tagfin = "fchmod R/nodes/#2/P_H4.service_tag mode=0400 ok"
+    stat_ = "open R/services/P_H4.service flags=O_RDWR|O_CREAT|O_EXCL,mode=0200 ok"
+    statfin = "fchmod R/services/P_H4.service mode=0400 ok"
+    dyn = "shm_open /dev/shm/P_H5_#6.dynamic flags=O_RDWR|O_CREAT|O_EXCL,mode=0200 ok"
+    rmtag = "remove R/nodes/#2/P_H4.service_tag - ok"
+    at = "stat R/nodes - killed"
+    r = "residue-after-cleanup:"
+    tests = [
+        (("victim", "node-create", at, [r + "node-details,node-dir"], "nobody", [mk, det], [mk, det]), K_NODE_CREATE),
+        (("victim", "node-create", at, [r + "node-dir"], "nobody", [mk, det], [mk, det]), None),                       # residue != prediction
+        (("victim", "node-create", at, [r + "monitor-context,node-details,node-dir"], "nobody", [mk, det, ctx_, fin], [mk, det, ctx_, fin]), None),   # token finalised
+        (("victim", "svc-open-ps", at, [r + "node-details,node-dir"], "nobody", [tag], [mk, det, tag]), None),            # other window
+        (("victim", "svc-open-ps", at, ["node-never-clean:Dead:InternalError"], "nobody", [tag], [mk, tag]), K_TAG),
+        (("victim", "svc-open-ps", at, ["node-never-clean:Dead:InternalError"], "nobody", [tag, tagfin], [mk, tag, tagfin]), None),  # tag finalised
+        (("victim", "svc-open-ps", at, ["node-never-clean:Dead:InternalError"], "nobody", [], [mk]), None),               # no tag created
+        (("victim", "svc-create-ps", at, [r + "static-config"], "nobody", [tag, tagfin, stat_], [mk, tag, tagfin, stat_]), K_STATIC),
+        (("victim", "svc-create-ps", at, [r + "static-config"], "nobody", [tag, tagfin, stat_, statfin], [mk, tag, tagfin, stat_, statfin]), None),  # unlocked
+        (("victim", "svc-open-ps", at, [r + "static-config"], "nobody", [tag, tagfin], [mk, tag, tagfin]), None),        # same residue, open window
+        (("victim", "drop_s@create_ps", at, [r + "dynamic-config,static-config", "probe-differs:exists:true"], "nobody", [rmtag], [mk, tag, stat_, dyn, rmtag]), K_SVC_DROP),
+        (("victim", "drop_s@create_ps", at, [r + "dynamic-config,static-config"], "nobody", [], [mk, tag, stat_, dyn]), None),   # tag not removed yet
+        (("victim", "drop_s@open_ps", at, [r + "dynamic-config,static-config"], "nobody", [rmtag], [mk, tag, rmtag]), None),   # not the only user
+        (("victim", "drop_s@create_ps", at, [r + "static-config"], "nobody", [rmtag], [mk, tag, stat_, dyn, rmtag]), None),     # residue != prediction
+    ]
+    bad = []
+    for args, want in tests:
+        got = classify(*args)
+        if got != want:
+            bad.append((args[1], args[3], want, got))
+    return bad
 
 
 def window_kind(win, scenario):
@@ -825,7 +946,8 @@ def enumerate_as(ctx, tdir, scs, user, th, model_steps, classes, stats):
                 idx = k if ck is None else ck
                 wk = window_kind(win, nme)
                 proc = "victim" if ck is None else "cleaner"
-                rk = classify(proc, wk, at, [b[0] for b in bad], uname)
+                done_all, done_win = performed(mine)
+                rk = classify(proc, wk, at, [b[0] for b in bad], uname, done_win if ck is None else done_all, done_all)
                 if len(stats["samples"]) < 6:
                     stats["samples"].append({"scenario": nme, "process": proc, "crash_index": idx, "call_at_crash_point": at, "window": wk,
                                              "symptoms": [b[0] for b in bad], "root_cause": rk})
@@ -881,12 +1003,28 @@ def regression_zero_size(ctx, tdir):
             res = f.result()
             n += 1
             syms = [b[0] for b in judge(res, ref)]
-            if syms and classify("victim", window_kind(window_of(canon_trace(res.get("victim_trace", []), res["canon"]), i), sc), l, syms, "self") != K_LISTENER:
+            mine = canon_trace(res.get("victim_trace", []), res["canon"])
+            done_all, done_win = performed(mine)
+            if syms and classify("victim", window_kind(window_of(mine, len(mine)), sc), l, syms, "self", done_win, done_all) != K_LISTENER:
                 ctx.violation("regression of fix 868edb1 (crash between shm_open(O_CREAT) and ftruncate, as root): scenario %s, victim killed at gated call %d (%s): %s" % (sc, i, l, syms),
                               {"scenario": sc, "crash_index": i, "process": "victim", "run_as_user": "self", "call_at_crash_point": l, "symptoms": syms,
                                "survivor_after": res["phases"].get("after"), "how_to_rerun": replay_cmd(res)})
     ctx.cov["zero_size_shm_regression_cases"] = n
     return n
+
+
+def performed(trace):
+    """(all calls the dead process performed, those of the API window it died in) from ITS OWN canonical gate log"""
+    done = list(trace)
+    if done and done[-1].endswith(" killed"):
+        done = done[:-1]
+    win = []
+    for l in done:
+        if l.startswith("access R/@M/"):
+            win = []
+        else:
+            win.append(l)
+    return done, win
 
 
 def _on_term(signum, frame):
@@ -935,6 +1073,10 @@ def run(ctx):
     if only:
         scs = [s for s in scs if re.search(only, s["name"])]
     users = default_users(th)
+    st = classifier_selftest()
+    if st:
+        ctx.violation("check machinery: the known-finding classifier fails its self-test (a case would be keyed without its preconditions, or missed): %s" % st[:3],
+                      {"failed": [list(map(str, x)) for x in st]}, no_input=True)
     if not only:
         regression_zero_size(ctx, tdir)
     model_steps = model_step_lists(ctx)
@@ -954,8 +1096,8 @@ def run(ctx):
             continue                                  # a stuck cleanup loop with a definite error result is not timing dependent
         nconf = sum(1 for x in classes.values() if "confirmed" in x)
         if nconf >= int(os.environ.get("C04_MAX_CONFIRM", "10" if th else "3")):
-            c["confirmed"] = False
-            ctx.notes.append("class %s (%d cases): timing-sensitive symptom not re-run (confirmation cap reached), not reported" % (key, c["count"]))
+            # never drop an unkeyed class: beyond the cap it is reported without the isolated re-run
+            ctx.notes.append("class %s (%d cases): timing-sensitive symptom reported without an isolated re-run (confirmation cap reached)" % (key, c["count"]))
             continue
         a = c["first"]["args"]
         old = (PHASE_TIMEOUT, VICTIM_TIMEOUT)
